@@ -151,7 +151,19 @@ func (c *FnCtx) bindClause(cl *clause, env *evalEnv, prefix string) *boundClause
 			fl.argV = append(fl.argV, v)
 		}
 		fl.desc = fmt.Sprintf("%s(%d args)", fl.callee, len(fl.args))
-		c.flags = append(c.flags, fl)
+		// identical event patterns share one flag (so invariants can talk about the ensures' events)
+		key := fl.callee + "(" + strings.Join(fl.argT, " , ") + ")"
+		shared := false
+		for _, o := range c.flags {
+			if o.callee+"("+strings.Join(o.argT, " , ")+")" == key {
+				fl = o
+				shared = true
+				break
+			}
+		}
+		if !shared {
+			c.flags = append(c.flags, fl)
+		}
 		bc.flagOf[call] = fl.id
 		c.ss().flagMap[call] = fl.id
 	})
@@ -222,7 +234,7 @@ func (c *FnCtx) setupSpec(st0 *State) {
 		s.reqs = append(s.reqs, t)
 	}
 	if c.inst != nil {
-		if c.inst.variadic { // variadic slot: index ghost
+		if c.inst.variadic && c.ghosts["si"] == nil { // variadic slot: index ghost
 			c.ghosts["si"] = c.freshOf(st0, intT, "ghost.si")
 		}
 		t, err := c.evalBool(c.inst.expr, env)
@@ -256,6 +268,23 @@ func (c *FnCtx) setupSpec(st0 *State) {
 			bc.name = fmt.Sprintf("ensures%d", i+1)
 		}
 		s.ens = append(s.ens, bc)
+	}
+	// loops designated by a variable name: the innermost loop containing every reference to it
+	for name, ls := range c.spec.loopsByName {
+		li := c.loopOfVar(name)
+		if li == nil {
+			c.unsupported("contract: no loop binds variable %q", name)
+			continue
+		}
+		if ex := c.spec.loops[li.ordinal]; ex != nil && ex != ls {
+			ex.invariants = append(ex.invariants, ls.invariants...)
+			if ls.decreases != nil {
+				ex.decreases = ls.decreases
+			}
+			delete(c.spec.loopsByName, name)
+			continue
+		}
+		c.spec.loops[li.ordinal] = ls
 	}
 	// loop invariants may use called() too
 	for _, li := range c.loopOrd {
@@ -320,6 +349,20 @@ func (c *FnCtx) loopInvariants(li *loopInfo, st *State, cond Term, mode string) 
 			continue
 		}
 		if mode == "assume" {
+			// assumed with its quantifiers intact (skolems are for the proof side only)
+			if len(bc.skolems) > 0 {
+				if len(bc.flagOf) > 0 {
+					c.specErr(bc.cl, fmt.Errorf("called(...) under a quantified invariant is not supported"))
+					continue
+				}
+				env0 := c.clauseEnv(bc, st, nil)
+				env0.bound = nil
+				t, err = c.evalBool(bc.cl.expr, env0)
+				if err != nil {
+					c.specErr(bc.cl, err)
+					continue
+				}
+			}
 			c.assume(implies(cond, t))
 			continue
 		}
@@ -402,7 +445,7 @@ func (c *FnCtx) autoCandidates(li *loopInfo, st *State, cond Term, mode string) 
 					ft = "false"
 				}
 				for _, k := range sk {
-					cs = append(cs, cnd{fmt.Sprintf("flag%d:%s<=idx", id, k), implies(app("<=", bc.skolems[k].S, phi.S), ft)})
+					cs = append(cs, cnd{fmt.Sprintf("flag%d:%s<=idx", id, k), implies(and(app("<=", "0", bc.skolems[k].S), app("<=", bc.skolems[k].S, phi.S)), ft)})
 				}
 			}
 		}
@@ -569,4 +612,36 @@ func (c *FnCtx) checkFrame(st *State, where string) {
 		}
 		c.emit(&Obligation{Name: fmt.Sprintf("%s.frame.%s", c.spec.oname(), sym(k)), Kind: "frame", Clause: "modifies: " + k + " unchanged on pre-existing objects", Where: where, Hyp: st.pc, Goal: goal})
 	}
+}
+
+// loopOfVar finds the innermost loop whose blocks contain every DebugRef of the
+// source variable `name` (a range key / value or a variable declared in the loop).
+func (c *FnCtx) loopOfVar(name string) *loopInfo {
+	var refs []*ssa.BasicBlock
+	for _, b := range c.fn.Blocks {
+		for _, ins := range b.Instrs {
+			if d, ok := ins.(*ssa.DebugRef); ok {
+				if obj := d.Object(); obj != nil && obj.Name() == name {
+					refs = append(refs, b)
+				}
+			}
+		}
+	}
+	if len(refs) == 0 {
+		return nil
+	}
+	var best *loopInfo
+	for _, li := range c.loopOrd {
+		all := true
+		for _, b := range refs {
+			if !li.blocks[b] {
+				all = false
+				break
+			}
+		}
+		if all && (best == nil || len(li.blocks) < len(best.blocks)) {
+			best = li
+		}
+	}
+	return best
 }
